@@ -408,6 +408,10 @@ def plan(tier):
     for n in range(6 if tier == 'quick' else 7, (9 if tier == 'quick' else 11)):
         for first in range(2):
             t.append({'kind': 'weighted', 'n': n, 'first': first, 'alpha': 2})
+    for n in (11, 12) if tier == 'quick' else (11, 12, 13, 14):
+        t.append({'kind': 'weightedwide', 'n': n})
+    for base in (7, 255, 256, 257, 300, 1000, 70000):
+        t.append({'kind': 'levels', 'base': base})
     L = 5 if tier == 'quick' else 7
     S = 7 if tier == 'quick' else 9
     for na in range(1, L + 1):
@@ -475,6 +479,30 @@ def run_task(task, acc):
                         for htag, c, ops in hosts_for(n, ('H0', 'H1', 'SAT', 'ODD') if n > 2 else ('H0', 'H1', 'H2', 'SAT', 'ODD')):
                             check_weighted(acc, w, b, naive, htag, c, ops)
         acc.sample({'fn': 'add_sum_n_weighted_bits', 'weights': [task['first']] * n, 'basis': 'str:AIG', 'host': 'H1'})
+        return
+    if k == 'weightedwide':
+        # 11 and more operands (two-digit positions) with non-uniform weights, circuit-level generators and hosts
+        n = task['n']
+        vecs = [tuple(i % 4 for i in range(n)), tuple(3 - i % 4 for i in range(n)), tuple(i % 2 for i in range(n)),
+                tuple(1 if i < n - 1 else 0 for i in range(n)), tuple((i * 7) % 5 for i in range(n))]
+        for w in vecs:
+            for b in ('XAIG', 'AIG'):
+                for naive in (False, True):
+                    check_weighted(acc, w, b, naive)
+                    c, ops = arith.host('H0', n)
+                    check_weighted(acc, w, b, naive, 'H0', c, ops)
+        return
+    if k == 'levels':
+        # weight levels around and beyond 256 (several operands on one level, carries into the next)
+        base = task['base']
+        vecs = [(base,) * 4 + (base + 1,), (base,) * 5 + (base + 1,) * 2, (base, base + 1, base + 2, base, base),
+                (base,) * 3 + (base + 2,) * 3, (0, base, base, base, base)]
+        for w in vecs:
+            for b in ('XAIG', 'AIG'):
+                for naive in (False, True):
+                    for h in ('H0', 'H1'):
+                        c, ops = arith.host(h, len(w))
+                        check_weighted(acc, w, b, naive, h, c, ops)
         return
     if k == 'two':
         na, nb = task['na'], task['nb']
